@@ -16,7 +16,7 @@ P3 == <<47, 101, 116, 99, 47, 99, 102, 103, 46, 99, 111, 110, 102, 46, 100, 47, 
 P4 == <<47, 101, 116, 99, 47, 99, 102, 103, 46, 99, 111, 110, 102>>                                                                            \* /etc/cfg.conf
 P5 == <<47, 101, 116, 99, 47, 99, 102, 103, 46, 99, 111, 110, 102, 46, 100, 47, 53, 48, 45, 98, 97, 100, 46, 99, 111, 110, 102>>                \* /etc/cfg.conf.d/50-bad.conf
 Pool == (P1 :> << <<35, 32, 97, 98, 111, 117, 116, 32, 97>>, <<97, 61, 49>>, <<91, 83, 93>>, <<98, 61, 50>> >>)      \* "# about a" a=1 [S] b=2
-     @@ (P2 :> << <<91, 83, 93>>, <<98, 61, 51>>, <<99, 61, 52>> >>)                                                  \* [S] b=3 c=4
+     @@ (P2 :> << <<91, 83, 93>>, <<98, 61, 51>>, <<99, 61, 52>>, <<101, 61, 95, 110, 111, 110, 101, 95>> >>)          \* [S] b=3 c=4 e=_none_  (a value that is the library's own marker word)
      @@ (P3 :> << <<97, 61, 57>> >>)                                                                                   \* a=9
      @@ (P4 :> << <<97, 61, 53>>, <<100, 61, 54>> >>)                                                                  \* a=5 d=6
      @@ (P5 :> << <<91, 98, 114, 111, 107, 101, 110>> >>)                                                              \* [broken
